@@ -375,6 +375,9 @@ func (c *Check) ruleConflictingRemovesEach(rule string) {
 // len==20 test both sides copy into the result (verbatim / Hash160) before the value is used.
 func (c *Check) ruleCanonOnEveryPath(rule string) {
 	for _, fk := range []string{"spynode.pushDataToHash", "spynode.(*Node).SubscribePushDatas"} {
+		if fk == "spynode.pushDataToHash" && c.P.Fn(fk) == nil {
+			continue // written in place at its call sites
+		}
 		fn := c.Fn(rule, fk)
 		if fn == nil {
 			continue
@@ -700,7 +703,38 @@ func (c *Check) ruleRemovedRangeIsCountedRange(rule string, fRequested, fSize *t
 				continue
 			}
 			rsl, ok := stripConv(rs).(*ssa.Slice)
-			if !ok || loadOfField(rsl.X, fRequested) == nil {
+			if !ok {
+				// index form: `for j := k; j < len(q); j++` over the queue itself
+				if loadOfField(rs, fRequested) != nil {
+					subtracts := false
+					for b := range loopBody(h) {
+						for _, in := range b.Instrs {
+							if s2, ok := in.(*ssa.Store); ok {
+								if fa, ok := s2.Addr.(*ssa.FieldAddr); ok && fieldOfAddr(fa) == fSize {
+									subtracts = true
+								}
+							}
+						}
+					}
+					if subtracts {
+						found = true
+						body := loopBody(h)
+						for _, in := range h.Instrs {
+							phi, isPhi := in.(*ssa.Phi)
+							if !isPhi {
+								break
+							}
+							for i, e := range phi.Edges {
+								if !body[h.Preds[i]] && sameExpr(e, sl.High) {
+									okSame = true
+								}
+							}
+						}
+					}
+				}
+				continue
+			}
+			if loadOfField(rsl.X, fRequested) == nil {
 				continue
 			}
 			subtracts := false
@@ -1371,4 +1405,82 @@ func (c *Check) ruleConstIndexGuarded(rule string, scope ...string) {
 		}
 	}
 	c.Min(rule, "constant-index slice accesses on the sync path", n, 1)
+}
+
+// canonicalHashData: v is (derived from) a push-data hash canonicalised in place – a Hash20 local h
+// that is filled by `copy(h[:], d)` on one side of a `len(d) == 20` test and by
+// `copy(h[:], Hash160(d))` on the other – and returns d. This is pushDataToHash written inline.
+func canonicalHashData(v ssa.Value) ssa.Value {
+	var al *ssa.Alloc
+	for _, r := range append([]ssa.Value{v}, rootsAll(v)...) {
+		if a, ok := r.(*ssa.Alloc); ok && strings.HasSuffix(a.Type().String(), "bitcoin.Hash20") {
+			al = a
+		}
+		if u, ok := r.(*ssa.UnOp); ok && u.Op == token.MUL {
+			if a, ok := u.X.(*ssa.Alloc); ok && strings.HasSuffix(a.Type().String(), "bitcoin.Hash20") {
+				al = a
+			}
+		}
+	}
+	if al == nil {
+		return nil
+	}
+	fn := al.Parent()
+	var verbatim, hashed ssa.Value
+	var vb, hb *ssa.BasicBlock
+	var vCopy, hCopy ssa.Instruction
+	for _, b := range fn.Blocks {
+		for _, in := range b.Instrs {
+			call, ok := in.(*ssa.Call)
+			if !ok || builtinCall(call, "copy") == nil || len(call.Call.Args) != 2 {
+				continue
+			}
+			dst, ok := call.Call.Args[0].(*ssa.Slice)
+			if !ok || dst.X != ssa.Value(al) {
+				continue
+			}
+			src := call.Call.Args[1]
+			if h := derivesFromCall(src, "bitcoin.Hash160"); h != nil && len(h.Call.Args) == 1 {
+				hashed, hb, hCopy = h.Call.Args[0], b, call
+			} else {
+				verbatim, vb, vCopy = src, b, call
+			}
+		}
+	}
+	if verbatim == nil || hashed == nil || !(sameExpr(verbatim, hashed) || sharesRoot(verbatim, hashed)) {
+		return nil
+	}
+	// the two copies sit on the two sides of a len(d) == 20 test
+	for _, b := range fn.Blocks {
+		iff, ok := lastIf(b)
+		if !ok {
+			continue
+		}
+		r, ok := edgeRel(iff, 0)
+		if !ok || (r.Op != token.EQL && r.Op != token.NEQ) {
+			continue
+		}
+		k, isC := constInt(r.Y)
+		l := lenOf(r.X)
+		if !isC || k != 20 || l == nil || !(sameExpr(l, verbatim) || sharesRoot(l, verbatim)) {
+			continue
+		}
+		eqBr := 0
+		if r.Op == token.NEQ {
+			eqBr = 1
+		}
+		onEq := b.Succs[eqBr] == vb || b.Succs[eqBr].Dominates(vb)
+		onNe := b.Succs[1-eqBr] == hb || b.Succs[1-eqBr].Dominates(hb)
+		// … and each side fills the hash on every path (no length for which it stays zero)
+		if onEq && b.Succs[eqBr] != vb {
+			onEq, _ = alwaysFollowedBy(b.Succs[eqBr].Instrs[0], []ssa.Instruction{vCopy}, true, nil)
+		}
+		if onNe && b.Succs[1-eqBr] != hb {
+			onNe, _ = alwaysFollowedBy(b.Succs[1-eqBr].Instrs[0], []ssa.Instruction{hCopy}, true, nil)
+		}
+		if onEq && onNe {
+			return verbatim
+		}
+	}
+	return nil
 }
